@@ -3,8 +3,10 @@ CONSTANTS
   Members = {"p"}
   Vals = {1}
   HwMax = 1
+  HwModes = {"refuse"}
   Tables = {"two"}
   Shapes = {"w"}
+  Modes = {"clamp"}
   Xs = {2}
   Kinds = {"limits"}
   Lo = 0
